@@ -1228,7 +1228,7 @@ pub fn gen_c17(r: &mut Rng, tier: Tier) -> Case {
     // somebody edits or deletes generated files by hand between two runs
     if r.chance(1, 5) && ops.len() >= 2 {
         let at = r.range(1, ops.len() as u64 - 1) as usize;
-        let what = *r.pick(&["tamper:delete", "tamper:garble", "tamper:truncate", "tamper:delete_all", "tamper:append"]);
+        let what = *r.pick(&["tamper:delete", "tamper:garble", "tamper:truncate", "tamper:delete_all", "tamper:append", "tamper:prepend", "tamper:banner", "tamper:crlf", "tamper:midline"]);
         let mut t = ops[at].clone();
         t.role = format!("{what}:{}", r.below(8));
         t.faults.clear();
@@ -1307,6 +1307,48 @@ fn eval_c17(case: &Case, sc: &mut Scratch, res: &mut EvalResult) {
                     "truncate" => {
                         let b = std::fs::read(&p).unwrap_or_default();
                         let _ = std::fs::write(&p, &b[..b.len() / 2]);
+                    }
+                    "prepend" => {
+                        // a merge went wrong: a conflict marker in front of the first line
+                        let mut b = b"<<<<<<< HEAD ".to_vec();
+                        b.extend(std::fs::read(&p).unwrap_or_default());
+                        let _ = std::fs::write(&p, b);
+                    }
+                    "banner" => {
+                        // the file of another release: the version number in the first lines differs
+                        let b = std::fs::read(&p).unwrap_or_default();
+                        let mut lines = 0;
+                        let edited: Vec<u8> = b
+                            .iter()
+                            .map(|c| {
+                                if *c == b'\n' {
+                                    lines += 1;
+                                }
+                                if lines < 3 && c.is_ascii_digit() { b'0' } else { *c }
+                            })
+                            .collect();
+                        let _ = std::fs::write(&p, edited);
+                    }
+                    "crlf" => {
+                        // re-saved with the other line ending
+                        let b = std::fs::read(&p).unwrap_or_default();
+                        let mut e = Vec::with_capacity(b.len() + 64);
+                        for c in b {
+                            if c == b'\n' {
+                                e.push(b'\r');
+                            }
+                            e.push(c);
+                        }
+                        let _ = std::fs::write(&p, e);
+                    }
+                    "midline" => {
+                        // one character changed somewhere in the middle
+                        let mut b = std::fs::read(&p).unwrap_or_default();
+                        if !b.is_empty() {
+                            let i = b.len() / 2;
+                            b[i] = if b[i] == b'x' { b'y' } else { b'x' };
+                        }
+                        let _ = std::fs::write(&p, b);
                     }
                     _ => {
                         let mut b = std::fs::read(&p).unwrap_or_default();
@@ -1428,6 +1470,34 @@ fn eval_c17(case: &Case, sc: &mut Scratch, res: &mut EvalResult) {
             }
             after_fault = false;
         } else if o.class != ResultClass::Ok || fault_fired {
+            // a run that reports success although a write to (or a read of) the output location
+            // failed on the way has absorbed the error (a retry, a fallback): it is a successful run
+            // like any other, and what it is responsible for must be what a fresh run produces.
+            // (Failing source reads and directory listings are C07's business, not looked at here.)
+            let output_side_only = o.oplog.iter().filter_map(|op| op.fault.as_deref()).all(|f| f.starts_with("write_fail") || f.starts_with("short_write") || f.starts_with("out_read_fail"));
+            if o.class == ResultClass::Ok && fault_fired && output_side_only {
+                let r = reference_run(sc, tree, inv, &mut res.stats);
+                if r.class == ResultClass::Ok {
+                    for (k, want) in &r.out_bytes() {
+                        res.stats.check("c17_success_after_absorbed_fault");
+                        let got = o.after.get(k);
+                        if got.map(|g| &g.bytes) != Some(want) {
+                            res.violations.push(Violation {
+                                property: "C17".into(),
+                                class: "WRONG_CONTENT_AFTER_ABSORBED_FAULT".into(),
+                                detail: format!("{ctxs}|{}", file_kind(k)),
+                                message: format!(
+                                    "run #{idx} reported success after an injected output-side fault ({}), yet the file {k} {} instead of holding what a run into an empty location produces",
+                                    o.oplog.iter().filter_map(|op| op.fault.clone()).collect::<Vec<_>>().join(", "),
+                                    if got.is_none() { "is missing" } else { "has other content" }
+                                ),
+                                op_index: idx,
+                            });
+                            break;
+                        }
+                    }
+                }
+            }
             if fault_fired {
                 after_fault = true;
             }
